@@ -76,6 +76,37 @@ Theorem C04_identifier_window : forall r a b,
 Proof. intros r a b H. unfold reg_matches. rewrite H. reflexivity. Qed.
 Print Assumptions C04_identifier_window.
 
+(* end to end, in the vocabulary of the property: a line is given type k iff k is the first declared register whose
+   identifier pattern denotes some stretch of the line's leading window (for a literal identifier: occurs in it) *)
+Definition ident_found (r : regdef) (line : str) : Prop :=
+  match r_pat r with
+  | Some p => exists i j, i <= List.length (firstn (r_digits r) line) /\ M (firstn (r_digits r) line) p i j
+  | None => contains (r_ident r) (firstn (r_digits r) line) = true
+  end.
+
+Lemma ident_found_iff : forall r line, reg_matches r line = true <-> ident_found r line.
+Proof.
+  intros r line. unfold ident_found. destruct (r_pat r) as [p|] eqn:Hp.
+  - exact (C04_identifier_found r p line Hp).
+  - unfold reg_matches. rewrite Hp. tauto.
+Qed.
+
+Theorem C04_dispatch_denotation : forall rs line k,
+  reg_dispatch rs line = Some k <->
+  exists r, nth_error rs k = Some r /\ ident_found r line /\
+            forall j b, j < k -> nth_error rs j = Some b -> ~ ident_found b line.
+Proof.
+  intros rs line k. unfold reg_dispatch. rewrite (find_idx_spec (fun r => reg_matches r line) rs 0 k). split.
+  - intros [k' [r [Hk [Hr [Hm Hearlier]]]]]. cbn in Hk. subst k'. exists r. split; [exact Hr|]. split.
+    + apply ident_found_iff. exact Hm.
+    + intros j b Hj Hb Hf. apply ident_found_iff in Hf. cbv beta in Hearlier. rewrite (Hearlier j b Hj Hb) in Hf. discriminate.
+  - intros [r [Hr [Hf Hearlier]]]. exists k, r. split; [reflexivity|]. split; [exact Hr|]. split.
+    + apply ident_found_iff. exact Hf.
+    + intros j b Hj Hb. destruct (reg_matches b line) eqn:E; [|reflexivity].
+      exfalso. apply (Hearlier j b Hj Hb). apply ident_found_iff. exact E.
+Qed.
+Print Assumptions C04_dispatch_denotation.
+
 Example C04_example_regex :
   let rs := [ {| r_ident := s2l "UH"%string; r_digits := 4; r_fields := []; r_delim := None;
                  r_pat := Some (RSeq RBol (RSeq (re_lit (s2l "UH"%string)) (RChr (CSpace false false)))) |};
